@@ -79,6 +79,7 @@ PROPS["C20"] = {"units": [
 PROPS["C09"] = {"units": [
     plain_unit("regress", "dl", "^TestRegressC09", overlay="full"),
     rapid_unit("sequential", "dl", "^TestC09Sequential$", 50000, 16 * 1000000, overlay="full"),
+    rapid_unit("schedules", "dl", "^TestC09Schedules$", 1000, 16 * 8000, overlay="full"),
 ]}
 
 PROPS["C08"] = {"units": [
@@ -94,6 +95,7 @@ PROPS["C18"] = {"units": [
 
 PROPS["C16"] = {"units": [
     rapid_unit("in-package", "vfilter", "^TestC16Loss$", 1500, 16 * 6000, overlay="full"),
+    rapid_unit("e2e", "vnete2e", "^TestC16LossE2E$", 150, 16 * 1000, overlay="plain"),
 ]}
 
 PROPS["C02"] = {"units": [
